@@ -423,37 +423,83 @@ Definition held_of (s : gstate) (t : nat) : held :=
 
 (** ** A monitor for observed lock events (trace conformance)
 
-    Events of the real daemon come from goroutines, not from logical operations:
-    the RUnlock that ends a snapshot is issued by the streaming goroutine, so an
-    [ERRel] by a goroutine that is not a reader releases some reader's hold. *)
+    The monitor replays a trace of (goroutine, event) pairs on the global lock
+    state and applies, for the acting goroutine [t], exactly the guards that
+    [check] imposes on a program — evaluated on what [t] really holds
+    ([held_of]).  The rules, by number (reported by [mon_why]):
+      1 mutual exclusion: an exclusive acquisition of a held lock, a write lock
+        with readers, a read lock with a writer;
+      2 a release by a goroutine that does not hold the lock / an RUnlock with
+        no reader;
+      3 chkMu write-locked blockingly, or try-locked outside the executor (or
+        while the same goroutine read-holds it);
+      4 chkMu read-locked outside the executor;
+      5 the hand-off: a position captured outside the executor, a checkpoint
+        that runs without chkMu or while a snapshot sits between its position
+        capture and its read lock;
+      6 lock order: the executor or Store.mu acquired blockingly while holding
+        anything; syncSem, db.mu or a read lock acquired while holding anything
+        but the executor;
+      7 the executor released while chkMu is still write-held (the checkpoint
+        section must lie inside the executor section);
+      8 (whole trace) something is still held at the end.
+    Failed try-acquisitions and abandoned waits are accepted without a test: the
+    hook records a release just BEFORE it happens, so the trace cannot witness
+    that the lock was still held.  A snapshot's RUnlock is issued by the
+    streaming goroutine; the hook attributes it to the goroutine that took the
+    RLock, and an RUnlock by a non-reader releases some reader's hold. *)
+Definition rel_state (s : gstate) (r : res) (t : nat) : gstate :=
+  match r with Exec => clear_window (set_own s r None) t | _ => set_own s r None end.
+Definition racq_state (s : gstate) (r : rres) (t : nat) : gstate :=
+  match r with
+  | ChkR => clear_window (set_rd s r (t :: rd s r)) t
+  | DbR => set_rd s r (t :: rd s r)
+  end.
+
+(** the part of [act_ok] that speaks about locks only *)
+Definition act_ok_locks (h : held) (a : action) : bool :=
+  match a with
+  | APos => hExec h
+  | ACkpt => hChkW h && negb (inWin h)
+  | AInit | ARtxRelease | ARtxAcquire | AHandlesClose | ACloseDone => hExec h
+  | AHandlesNil => hDbW h
+  | ARegAppend | ARegRemove => hStore h
+  | ARegReturnOk | AOther => true
+  end.
+
 Definition mon_step (s : gstate) (t : nat) (e : ev) : option gstate :=
+  let h := held_of s t in
   match e with
-  | EAcq r | ETryOk r =>
-      if can_acq s r && match r with ChkW => is_some_nat (own s Exec) t | _ => true end
-      then Some (set_own s r (Some t)) else None
-  | ETryFail r => if can_acq s r then None else Some s
-  | EAcqCancel _ | ETau | EReg _ => Some s
-  | ERel r =>
-      if is_some_nat (own s r) t then
-        Some (match r with Exec => clear_window (set_own s r None) t | _ => set_own s r None end)
-      else None
-  | ERAcq r =>
-      if can_racq s r && match r with ChkR => is_some_nat (own s Exec) t | DbR => true end
-      then Some (match r with
-                 | ChkR => clear_window (set_rd s r (t :: rd s r)) t
-                 | DbR => set_rd s r (t :: rd s r)
-                 end)
-      else None
+  | EAcq r => if can_acq s r && acq_ok h r then Some (set_own s r (Some t)) else None
+  | ETryOk r => if can_acq s r && try_ok h r then Some (set_own s r (Some t)) else None
+  | ETryFail _ | EAcqCancel _ | ETau | EReg _ => Some s
+  | ERel r => if rel_ok h r then Some (rel_state s r t) else None
+  | ERAcq r => if can_racq s r && racq_ok h r then Some (racq_state s r t) else None
   | ERRel r =>
       match rd s r with
       | [] => None
       | x :: tl => Some (set_rd s r (if memb t (rd s r) then remove1 t (rd s r) else tl))
       end
-  | EAct APos => if is_some_nat (own s Exec) t then Some (do_act s t APos) else None
-  | EAct ACkpt =>
-      if is_some_nat (own s ChkW) t && isNone (window s) then Some (do_act s t ACkpt) else None
-  | EAct a => Some (do_act s t a)
+  | EAct a => if act_ok_locks h a then Some (do_act s t a) else None
   end.
+
+(** which rule rejected the event (only meaningful when [mon_step] is [None]) *)
+Definition mon_why (s : gstate) (t : nat) (e : ev) : nat :=
+  let h := held_of s t in
+  match e with
+  | EAcq ChkW => 3
+  | EAcq r => if can_acq s r then 6 else 1
+  | ETryOk r => if can_acq s r then 3 else 1
+  | ERel r => if hget h r then 7 else 2
+  | ERAcq r => if can_racq s r then (if only_exec h then 4 else 6) else 1
+  | ERRel _ => 2
+  | EAct _ => 5
+  | _ => 0
+  end.
+
+Definition idle (s : gstate) : bool :=
+  isNone (own s Exec) && isNone (own s ChkW) && isNone (own s Syncs) && isNone (own s StoreMu) &&
+  isNone (own s DbW) && isNil (rd s ChkR) && isNil (rd s DbR).
 
 Fixpoint mon_run (s : gstate) (tr : list (nat * ev)) : option gstate :=
   match tr with
@@ -461,5 +507,17 @@ Fixpoint mon_run (s : gstate) (tr : list (nat * ev)) : option gstate :=
   | (t, e) :: tl => match mon_step s t e with Some s' => mon_run s' tl | None => None end
   end.
 
+(** complete traces (recorded from an idle system until it is idle again) *)
 Definition trace_ok (tr : list (nat * ev)) : bool :=
-  match mon_run init_state tr with Some s => negb (viol s) | None => false end.
+  match mon_run init_state tr with Some s => negb (viol s) && idle s | None => false end.
+
+(** diagnosis: (number of events accepted, rule); rule 0 = whole trace accepted *)
+Fixpoint mon_diag (s : gstate) (k : nat) (tr : list (nat * ev)) : nat * nat :=
+  match tr with
+  | [] => (k, if idle s then 0 else 8)
+  | (t, e) :: tl =>
+      match mon_step s t e with
+      | Some s' => mon_diag s' (S k) tl
+      | None => (k, mon_why s t e)
+      end
+  end.
